@@ -552,8 +552,9 @@ static double projectedGradient(const Sys& S, const Prob& P, const State& tw, co
     return projectedGradientGeneric([&](const Vector& x) { EvalOut e = evaluate(S, P, tw, x, t, nullptr); return FnOut{e.goal, e.errs}; }, q, F, lo, hi);
 }
 
-// Judge one returned assemble()/track() call.
-static void judgeAssembler(Ctx& c, AsmRun& R, Assembler& A, const std::string& api, double reported,
+// Judge one returned assemble()/track() call. Returns false when a violated lock/prescription makes
+// everything that follows (later tracking frames included) a mere consequence.
+static bool judgeAssembler(Ctx& c, AsmRun& R, Assembler& A, const std::string& api, double reported,
                            const State& userAfter, const Vector& qBeforeI, double tBefore, double tAfterExpected,
                            bool achievableNow, bool smallStart, const Vector& qTargetE, long throwsDuringCall) {
     const Sys& S = R.S; const Prob& P = R.P;
@@ -571,7 +572,7 @@ static void judgeAssembler(Ctx& c, AsmRun& R, Assembler& A, const std::string& a
     };
     c.setPhase("judge " + api);
     // ---- 0. finite
-    if (!std::isfinite(reported) || !allFinite(qI) || !allFinite(userAfter.getQ())) { c.viol("asm:nonfinite:" + apiK, W()); return; }
+    if (!std::isfinite(reported) || !allFinite(qI) || !allFinite(userAfter.getQ())) { c.viol("asm:nonfinite:" + apiK, W()); return false; }
     // ---- 1. the Assembler works on the client's instance-level settings
     {
         bool lostEnable = false, lostLock = false; std::string which;
@@ -583,11 +584,11 @@ static void judgeAssembler(Ctx& c, AsmRun& R, Assembler& A, const std::string& a
             Json w = W(&e).set("which", which).set("clientErrNorm", e.errNorm).set("lockedCoordinateMoved", moved);
             if (lostEnable) c.viol(std::string("asm:client-settings:constraint-enable-flag-ignored:") + (S.userEuler ? "euler" : "quat"), w);
             if (lostLock) c.viol(std::string("asm:client-settings:mobilizer-lock-ignored:") + (S.userEuler ? "euler" : "quat"), w);
-            return;
+            return false;
         }
     }
     EvalOut e = evaluate(S, P, R.twin, qI, tI, &userAfter);
-    if (!e.finite) { c.viol("asm:nonfinite-recomputed:" + apiK, W(&e)); return; }
+    if (!e.finite) { c.viol("asm:nonfinite-recomputed:" + apiK, W(&e)); return false; }
     c.obs("asm:optimizer:" + std::string(e.nErr > 0 ? "ipopt" : limits ? "lbfgsb" : "lbfgs"));
     if (throwsDuringCall > 0) c.obs(std::string("asm:swallowed:") + (P.numGrad ? "numeric-gradient:" : "analytic-gradient:") + normMsg(g_lastThrow));
     // ---- 2. client state <- internal state
@@ -617,13 +618,14 @@ static void judgeAssembler(Ctx& c, AsmRun& R, Assembler& A, const std::string& a
         }
         if (!P.lockMob.empty() || !P.lockQ.empty() || !P.dynLock.empty()) {
             bool okLock = c.require("asm-lock:" + apiK + ":" + kind, bad < 0, [&] { return W(&e).set("qIndex", bad).set("before", bad >= 0 ? R.q0E[bad] : 0.0).set("after", bad >= 0 ? qI[bad] : 0.0); });
-            if (!okLock) return;      // everything downstream is a consequence
+            if (!okLock) return false;      // everything downstream is a consequence
         }
         if (!S.mots.empty()) {
             double worst = 0, amp = 1;
             for (auto& mo : S.mots) for (int i = 0; i < S.nq(mo.node); ++i) { worst = std::max(worst, std::fabs(qI[S.q0(mo.node) + i] - prescribedValue(mo, tI))); amp = std::max(amp, mo.amp); }
-            c.check("asm-prescribed:" + apiK, worst, 8 * EPS * amp, [&] { return W(&e).set("time", tI); });
-            c.check("asm-prescribed:time:" + apiK, std::fabs(tI - tAfterExpected), 0.0, [&] { return W(&e).set("time", tI).set("expected", tAfterExpected); });
+            bool okP = c.check("asm-prescribed:" + apiK, worst, 8 * EPS * amp, [&] { return W(&e).set("time", tI).set("goalsPresent", P.kinds()); });
+            okP = c.check("asm-prescribed:time:" + apiK, std::fabs(tI - tAfterExpected), 0.0, [&] { return W(&e).set("time", tI).set("expected", tAfterExpected); }) && okP;
+            if (!okP) return false;
         }
         // in the client's own representation: a locked mobilizer has not moved
         State f = userAfter; f.updQ() = freshQ(userAfter.getQ()); S.m.sys.realize(f, Stage::Position);
@@ -694,6 +696,7 @@ static void judgeAssembler(Ctx& c, AsmRun& R, Assembler& A, const std::string& a
         }
         (void)qTargetE;
     }
+    return true;
 }
 
 static std::string asmCoverKey(const AsmRun& R, const std::string& api, const std::string& outcome) {
@@ -813,11 +816,11 @@ static void caseAssembler(Ctx& c, long idx, Rng& r, bool unlistedTail) {
     if (!ok) { c.skip("assemble-failed-to-converge"); return; }
     c.obs("asm:assemble-ok"); c.cover(asmCoverKey(R, "assemble", "ok"));
     if (g_throws > throws0) c.obs("asm:optimizer-failure-swallowed:assemble");
-    judgeAssembler(c, R, A, api, reported, user, R.q0E, S.t0, S.t0, P.achievable, P.delta <= 0.3, qTarget, g_throws - throws0);
+    bool consistent = judgeAssembler(c, R, A, api, reported, user, R.q0E, S.t0, S.t0, P.achievable, P.delta <= 0.3, qTarget, g_throws - throws0);
     if (c.wantSample()) c.sample(Json::obj().set("tool", "Assembler").set("model", S.m.desc.shortStr()).set("userEuler", S.userEuler).set("cons", S.conTypes()).set("kinds", P.kinds()).set("restr", P.restr()).set("goal", reported).set("tol", P.tolInUse()).set("acc", P.accInUse()));
 
     // ---- tracking frames
-    int frames = r.integer(0, 2);
+    int frames = consistent ? r.integer(0, 2) : 0;
     for (int fr = 1; fr <= frames; ++fr) {
         c.setPhase("asm track setup");
         Vector qBefore = freshQ(A.getInternalState().getQ()); double tBefore = A.getInternalState().getTime();
@@ -869,7 +872,7 @@ static void caseAssembler(Ctx& c, long idx, Rng& r, bool unlistedTail) {
         c.obs("asm:track-ok"); c.cover(asmCoverKey(R, "track", "ok"));
         c.require("asm-track:reinitialized-by-frame-update", wasInit && A.getNumInitializations() == 1, [&] { return Json::obj().set("inits", A.getNumInitializations()); });
         if (g_throws > throws0) c.obs("asm:optimizer-failure-swallowed:track");
-        judgeAssembler(c, R, A, "track", reported, user, qBefore, tBefore, tExp, ach, true, qT, g_throws - throws0);
+        if (!judgeAssembler(c, R, A, "track", reported, user, qBefore, tBefore, tExp, ach, true, qT, g_throws - throws0)) break;
         qTarget = qT;
     }
 }
